@@ -2,7 +2,7 @@
    equal (or the wildcard), Set/Clear behave as a finite map, CTCP.call with ANY table is
    "wildcard handler, then the command's handler or the library's ERRMSG", and a table
    whose handlers stay silent on replies cannot be driven into a reply loop. *)
-Require Import Bytes Names GoUpper Ctcp CtcpSpec FormatLemmas NamesProofs CtcpProofs.
+Require Import Bytes Names GoUpperAscii Ctcp CtcpSpec FormatLemmas NamesProofs CtcpProofs.
 From Coq Require Import Lia ZifyBool ZifyN ZifyNat.
 
 Local Arguments N.add : simpl never.
